@@ -384,7 +384,7 @@ theorem inv_delGlyph_core (P : Params V) (T : Tables) (hcov : Coverage T = true)
     (hgs3 : w3.glyphs = eraseAll w2.glyphs name) (hlc : w3.looseC = w.looseC) (hlk : w3.looseK = w.looseK)
     (hf : w3.fuel = w.fuel) (hgv : w3.groupsVer = w.groupsVer) (hrg : w3.regs = w.regs) (hca : w3.caches = w.caches) :
     Inv P T ((goneObjs name g).foldl dropCache
-      (applyDeliv T w3 (switchDs T w (watchesBase name) Watch.layer "layerGlyphWillBeDeletedNotificationCallback"))) := by
+      (applyDeliv T w3 (switchDs T w (watchesBase name) Watch.layer "layerGlyphDeletedNotificationCallback"))) := by
   have hkd := keepsData_setWatch (watchesBase name) Watch.layer
   -- the erased layer, before switching
   have hgs3' : w3.glyphs = mapAllComps ({ w with glyphs := eraseAll w.glyphs name } : World V).glyphs
@@ -416,8 +416,8 @@ theorem inv_delGlyph_core (P : Params V) (T : Tables) (hcov : Coverage T = true)
       simp only [setWatch, hns, Bool.false_eq_true, if_false]
       exact hdom.watch x' g0 k0 x hg0 hk0 hbx hcx
   have hsel : ∀ z gz kz, AL.get? w2.glyphs z = some gz → kz ∈ gz.comps → kz.base = some name →
-      ∀ y, y ∈ compDeliv w.fuel T w2.glyphs z kz.id (T.postsOf "Component" "layerGlyphWillBeDeletedNotificationCallback") →
-        y ∈ switchDs T w (watchesBase name) Watch.layer "layerGlyphWillBeDeletedNotificationCallback" := by
+      ∀ y, y ∈ compDeliv w.fuel T w2.glyphs z kz.id (T.postsOf "Component" "layerGlyphDeletedNotificationCallback") →
+        y ∈ switchDs T w (watchesBase name) Watch.layer "layerGlyphDeletedNotificationCallback" := by
     intro z gz kz hgz hkz hbz y hy
     rw [hgs2, get?_mapAllComps] at hgz
     cases hg0 : AL.get? w.glyphs z with
@@ -434,7 +434,7 @@ theorem inv_delGlyph_core (P : Params V) (T : Tables) (hcov : Coverage T = true)
       have hwat := hdom.watch z g0 k0 name hg0 hk0 hbz (by simp [AL.contains, hg])
       refine mem_switchDs hg0 hk0 (by simp [watchesBase, hwat, hbz]) ?_
       rw [hgs2] at hy; exact hy
-  have hhits := fun {x' gx k c m} => switch_hits T hcov w2.glyphs w.fuel name "layerGlyphWillBeDeletedNotificationCallback" _
+  have hhits := fun {x' gx k c m} => switch_hits T hcov w2.glyphs w.fuel name "layerGlyphDeletedNotificationCallback" _
     (by simp [compCallbacks]) hb2 hWx hsel (x' := x') (gx := gx) (k := k) (c := c) (m := m)
   have hmapped : ∀ x' gx', AL.get? w.glyphs x' = some gx' →
       AL.get? w2.glyphs x' = some { gx' with comps := gx'.comps.map (setWatch (watchesBase name) Watch.layer) } := by
@@ -572,7 +572,7 @@ theorem inv_delGlyph (P : Params V) (T : Tables) (hcov : Coverage T = true) (w :
     simp only
     rw [switchAndPost_eq]
     have e1 : (applyDeliv T ({ w with glyphs := mapAllComps w.glyphs (setWatch (watchesBase name) Watch.layer) } : World V)
-        (switchDs T w (watchesBase name) Watch.layer "layerGlyphWillBeDeletedNotificationCallback")).glyphs =
+        (switchDs T w (watchesBase name) Watch.layer "layerGlyphDeletedNotificationCallback")).glyphs =
         mapAllComps w.glyphs (setWatch (watchesBase name) Watch.layer) := (sameStruct_applyDeliv T _ _).glyphs
     rw [e1, applyDeliv_with_glyphs]
     exact inv_delGlyph_core P T hcov w
